@@ -2014,8 +2014,11 @@ class Lock(BaseLock):
 
     async def acquire(self) -> None:
         task = cast(asyncio.Task, current_task())
+
+        # This must come before looking at the lock: if the cancellation turns out to be
+        # unreachable for us, the check returns after having yielded to other tasks
+        await AsyncIOBackend.checkpoint_if_cancelled()
         if self._owner_task is None and not self._waiters:
-            await AsyncIOBackend.checkpoint_if_cancelled()
             self._owner_task = task
 
             # Unless on the "fast path", yield control of the event loop so that other
@@ -2111,8 +2114,10 @@ class Semaphore(BaseSemaphore):
         self._waiters: deque[asyncio.Future[None]] = deque()
 
     async def acquire(self) -> None:
+        # This must come before looking at the value: if the cancellation turns out to be
+        # unreachable for us, the check returns after having yielded to other tasks
+        await AsyncIOBackend.checkpoint_if_cancelled()
         if self._value > 0 and not self._waiters:
-            await AsyncIOBackend.checkpoint_if_cancelled()
             self._value -= 1
 
             # Unless on the "fast path", yield control of the event loop so that other
